@@ -692,7 +692,12 @@ func (g *gen) genSpec(o specOpts) ([]varSpec, []taskSpec) {
 			}
 		}
 		if n != "default" && g.chance(3, 5) {
-			t.fdeps = append(t.fdeps, fmt.Sprintf("in%d.txt", ti))
+			// a quarter of the file-dependent tasks share one file: digests of different tasks then coincide
+			if ti > 0 && g.chance(1, 4) {
+				t.fdeps = append(t.fdeps, "in0.txt")
+			} else {
+				t.fdeps = append(t.fdeps, fmt.Sprintf("in%d.txt", ti))
+			}
 			if g.chance(1, 4) {
 				t.fdeps = append(t.fdeps, "src/*.txt")
 			}
@@ -965,12 +970,17 @@ func genC09(w *bufio.Writer, g *gen, n int) {
 // the exhaustive part of C09: two tasks x two commands, EVERY subset of the four commands failing, the second task
 // depending on the first or independent of it, x {plain, --quiet, --json, --force}, each followed by a second run
 func genC09Exhaustive(w *bufio.Writer, g *gen) {
-	for _, dep := range []bool{true, false} {
+	for _, depShared := range [][2]bool{{true, false}, {false, false}, {true, true}, {false, true}} {
+		dep, shared := depShared[0], depShared[1]
 		for mask := 0; mask < 16; mask++ {
 			for _, fl := range [][]string{nil, {"quiet"}, {"json"}, {"force"}} {
 				var tasks []taskSpec
 				for ti, n := range []string{"gen", "build"} {
 					t := taskSpec{name: n, fdeps: []string{fmt.Sprintf("in%d.txt", ti)}}
+					if shared {
+						// both tasks hash the same file: their digests coincide
+						t.fdeps = []string{"in0.txt"}
+					}
 					if ti == 1 && dep {
 						t.tdeps = []string{"gen"}
 					}
